@@ -14,5 +14,6 @@ TECHNIQUE = {
     'C18': 'static decision procedure: validator AST translated to DFAs over a symbolic alphabet (regexes via re._parser), language inclusion both ways against the specification grammar with shortest witnesses',
     'C17': 'static guard tables: accessor guards extracted by path enumeration and evaluated by constant folding over the finite access/notification vocabularies; sibling agreement of Get/GetAll; loop-shape rules for aggregation vs lookup',
     'C12': 'static matcher analysis: key-coverage dataflow between addMatch, Rule.add and Rule.match; separator-aware prefix lint; decision tables of the namespace and argument-path tests by path enumeration and constant folding; rule-text/local-rule agreement',
+    'C16': 'static ownership and announcement rules by path enumeration; descendant and child tests extracted and evaluated by constant folding on a fixed table of path pairs; separator-aware prefix lint',
     'C02': 'static conformance check of the extracted codec model against specification tables; padding function interpreted in the congruence domain mod 8',
 }
